@@ -53,6 +53,8 @@ def run(ctx):
     _summary_interpreted(ctx, r8, repo)
     r9 = ctx.rule("C12.R9", "REBUILD (interpreted): for each of the seven modifier types: the requirement its module declares -> the merged settings -> the parameter-set object (real classes) -> what Workspace.build writes for it -> merged again with that as the measurement's configuration: the second merge is accepted (build emits no setting the modifier does not use) and gives back the same inits, bounds, fixed flag and constraint settings; observations are cut with the configuration's channel slices in channel order", "REBUILD", floor=7)
     _rebuild_interpreted(ctx, r9, repo)
+    r10 = ctx.rule("C12.R10", "SETTINGS-HISTORY: a parameter set's suggested fixed flags read after they were assigned (the documented way of changing a model's defaults: a bool, a list, a bool again, in any order, with reads in between) are what was assigned last, one entry per component", "HISTORY", floor=3)
+    _paramset_history(ctx, r10, repo)
 
     # ------------------------------------------------------------ R1
     sites = [(PDF, "_ModelConfig._create_and_register_paramsets"), (MIX, "_ChannelSummaryMixin.__init__"), (TC, "_tensorviewer_from_sizes")]
@@ -555,3 +557,56 @@ def _rebuild_interpreted(ctx, rid, repo):
             ctx.violated(rid, build, f"rebuild [{typ}]", f"the measurement Workspace.build writes for a {typ} parameter is refused when the workspace is turned into a model again ({e.exc_name}): build emits a setting this modifier type does not use, or omits one it requires")
         except errs as e:
             ctx.unrecognised(rid, build, f"rebuild [{typ}]", f"not interpretable: {type(e).__name__}: {e}")
+
+
+def _paramset_history(ctx, rid, repo):
+    from ..alg import RaisedInFragment
+    from ..objmodel import Instance, World
+    PS = "src/pyhf/parameters/paramsets.py"
+    mod = repo.module(PS)
+    base = repo.cls(PS, "paramset")
+    getter = base.methods.get("suggested_fixed")
+    setter = mod.funcs.get("paramset.suggested_fixed#2")
+    if getter is None or setter is None:
+        ctx.unrecognised(rid, base, "paramset.suggested_fixed", "getter / setter not found")
+        return
+    ctx.touch(getter)
+    ctx.touch(setter)
+    errs = (Undecided, KeyError, TypeError, ValueError, IndexError, AttributeError)
+    at = Poly.atom
+    for cname, extra in (("unconstrained", {}), ("constrained_by_normal", {"auxdata": [at("a0"), at("a1"), at("a2")]}), ("constrained_by_poisson", {"auxdata": [at("a0"), at("a1"), at("a2")], "factors": [at("f0"), at("f1"), at("f2")]})):
+        cls = mod.classes.get(cname)
+        if cls is None:
+            continue
+        try:
+            w = World({"__strict__": True}, module_env={"pyhf": Obj("pyhf")})
+            for c_ in mod.classes.values():
+                w.add_class(c_)
+            inst = w.new(cls, [], {"name": "p", "n_parameters": Poly.const(3), "inits": [at("i0"), at("i1"), at("i2")], "bounds": [(at("l"), at("h"))] * 3, "fixed": False, "is_scalar": False, **extra})
+
+            def read():
+                v = w.get_property(inst, "suggested_fixed")
+                return list(v) if isinstance(v, (list, tuple)) else v
+
+            def assign(value):
+                env = {"self": inst, "value": value}
+                from ..alg import Interp
+                Interp(env, inst.attrs, {}, methods={n: m.node for n, m in w.methods_of(cls).items()}, cls_name=cls.name, externals=w.externals()).run(A.strip_docstring(setter.node.body))
+
+            steps = [("as constructed (fixed=False)", None, [False, False, False]), ("after = True", True, [True, True, True]), ("after = [True, False, True]", [True, False, True], [True, False, True]),
+                     ("after = False", False, [False, False, False]), ("after = [False, False, True]", [False, False, True], [False, False, True]), ("after = True again", True, [True, True, True])]
+            problems = []
+            for lab, value, want in steps:
+                if value is not None:
+                    assign(value if isinstance(value, bool) else list(value))
+                got = read()
+                if got != want:
+                    problems.append(f"{lab}: reads {got}, assigned {want}")
+            if problems:
+                ctx.violated(rid, getter, f"{cname}.suggested_fixed across assignments", f"the fixed flags a {cname} parameter set reports are not the ones assigned last: {problems[0]} -- a fit with default arguments then holds the wrong parameters constant", expected="what was assigned last, one entry per component", found=f"{len(problems)} deviation(s)")
+            else:
+                ctx.holds(rid, f"{PS}::{cname}.suggested_fixed [6 assignments with reads in between]", "always what was assigned last")
+        except RaisedInFragment as e:
+            ctx.violated(rid, getter, f"{cname}.suggested_fixed", f"raises {e.exc_name}")
+        except errs as e:
+            ctx.unrecognised(rid, getter, f"{cname}.suggested_fixed", f"not interpretable: {type(e).__name__}: {e}")
